@@ -34,6 +34,7 @@ import os
 import shutil
 import sys
 import tempfile
+import time
 
 import orjson
 from Bio.Seq import Seq
@@ -98,7 +99,7 @@ REQUIRED = ["op:bytes-unchanged", "op:failure-reported", "op:trace-clean-on-fail
 
 INJECT_MESSAGE = "vf-c20 injected conversion failure"
 QUICK_PAIRS_FOR_TWO_RECORDS = 5
-THOROUGH_SAMPLE_PER_SIZE = 60
+THOROUGH_SAMPLE_PER_SIZE = 40
 
 
 # --------------------------------------------------------------------------------------------
@@ -730,9 +731,14 @@ def _fault_run(ctx, mods, variant, path, baseline, fault, case, natural=False):
         _w_facts(variant, mods, None, trace, None, natural=True)
     if fault and baseline and _M.fired_qualname != baseline["names"][fault[0]][fault[1] - 1]:
         ctx.violate("harness:event-sequence-not-reproducible", dict(facts, got=_M.fired_qualname), case)
+    category = "W-" + (facts.get("phase", "natural") if not fault or fault[0] == "conv" else "aux")
     ctx.case((variant, mods, fault, natural), nontrivial=True,
-             sample={"part": "W", "variant": list(variant), "mods": mods, "fault": list(fault) if fault else "natural",
-                     "event": facts.get("event"), "outcome": type(error).__name__ if error else None})
+             sample=_sample_once(category, {"part": "W", "variant": list(variant), "mods": mods,
+                                            "fault": list(fault) if fault else "natural", "event": facts.get("event"),
+                                            "phase": facts.get("phase"),
+                                            "outcome": f"{type(error).__name__}: {str(error)[:80]}" if error else None,
+                                            "target_bytes_unchanged": (_read(path) == (OLD_BYTES if pre == "exists" else None))
+                                            if target == "path" else None}) if error is not None else None)
     if fault:
         ctx.count("W:kind:" + fault[2])
         ctx.count("W:fault-in-" + facts["phase"] + "-phase" if fault[0] == "conv" else "W:aux-faults")
@@ -792,6 +798,17 @@ def _fault_run(ctx, mods, variant, path, baseline, fault, case, natural=False):
     return True
 
 
+_SAMPLED: set = set()
+
+
+def _sample_once(category, sample):
+    """ evidence samples: one written-out case per category instead of the first few of the enumeration """
+    if category in _SAMPLED or category in ("W-natural", "W-aux"):
+        return None
+    _SAMPLED.add(category)
+    return sample
+
+
 def _kinds_for(ctx, position, extras):
     """ the four kinds named by the property always; `extras` further kinds rotating with the position """
     if extras >= len(EXTRA_KINDS):
@@ -813,15 +830,22 @@ def sweep_shape(ctx, mods, variants, path, extras, aux_kinds, summary):
         summary["max_positions"] = max(summary["max_positions"], total)
         for name in baseline["names"]["conv"]:
             summary["events"][name] = summary["events"].get(name, 0) + 1
+        hit = set()
         for pos in range(1, total + 1):
             if ctx.time_left() <= 0:
                 ctx.budget_hit = True
                 return False
             for kind in _kinds_for(ctx, pos, extras):
                 fault = ("conv", pos, kind)
-                _fault_run(ctx, mods, variant, path, baseline, fault, dict(case0, fault=list(fault)))
+                if _fault_run(ctx, mods, variant, path, baseline, fault, dict(case0, fault=list(fault))):
+                    hit.add(pos)
                 summary["fault_runs"] += 1
             summary["positions_hit"] += 1
+        if hit == set(range(1, total + 1)):
+            ctx.count("W:baselines-with-every-position-hit")
+        else:
+            ctx.count("W:baselines-with-unhit-positions")
+            complete = False
         if aux_kinds:
             total_aux = baseline["n"]["aux"]
             summary["aux_positions_max"] = max(summary["aux_positions_max"], total_aux)
@@ -1043,8 +1067,10 @@ def _run_dir_case(ctx, sandbox, case, main_module, config_module, neutral, outdi
              "raised": type(error).__name__ if error else None, "removed": removed, "added": added, "changed": changed,
              "changes_beyond_region_gbk": bool(added or changed or (set(removed) - removable))}
     refused = isinstance(error, AntismashInputError)
+    category = "D-refused" if refused else ("D-accepted-removed" if removed else None)
     ctx.case(case, nontrivial=bool(top) or state != "exists",
-             sample=dict(case, part="D", outcome=facts["raised"] or "accepted", removed=removed))
+             sample=_sample_once(category, dict(case, part="D", outcome=facts["raised"] or "accepted", removed=removed,
+                                                foreign=foreign)) if category and len(top) > 2 else None)
 
     if error is not None and not refused:
         ctx.violate("directory-preparation-crashed", dict(facts, message=str(error)[:160]), case)
@@ -1139,8 +1165,8 @@ def dir_cases(elements_universe, full):
 def _hidden_entries(clause, facts):
     """ glob('*') does not list dot-files: a directory whose only foreign entries are hidden is accepted (and left
         untouched). Must not hide: any accepted run with a visible foreign entry, any change of contents. """
-    return (clause == "foreign-content-not-refused" and facts.get("mode") == "fresh"
-            and facts.get("foreign_hidden") and not facts.get("foreign_unexplained")
+    return (clause == "foreign-content-not-refused" and facts.get("mode") in ("fresh", "reuse-elsewhere")
+            and bool(facts.get("foreign_hidden")) and not facts.get("foreign_unexplained")
             and not facts.get("changes_beyond_region_gbk") and not facts.get("removed"))
 
 
@@ -1148,8 +1174,8 @@ def _hidden_entries(clause, facts):
 def _logfile_cwd(clause, facts):
     """ with no --logfile, abspath('') is the working directory, so a top-level entry that IS the working directory
         is skipped as 'the log file'. Must not hide: acceptance of any other visible foreign entry. """
-    return (clause == "foreign-content-not-refused" and facts.get("mode") == "fresh" and facts.get("logfile") == "unset"
-            and facts.get("foreign_is_cwd") and not facts.get("foreign_unexplained")
+    return (clause == "foreign-content-not-refused" and facts.get("mode") in ("fresh", "reuse-elsewhere")
+            and facts.get("logfile") == "unset" and bool(facts.get("foreign_is_cwd")) and not facts.get("foreign_unexplained")
             and not facts.get("changes_beyond_region_gbk") and not facts.get("removed"))
 
 
@@ -1223,10 +1249,11 @@ def _run(ctx, base, main_module, config_module):
                   main_module, config_module)
         subsets.add((case["input"], tuple(case["elements"])))
     config_module.update_config({"logfile": "", "output_basename": "", "output_dir": ""})
+    d_wall = time.monotonic() - ctx.t0
     ctx.extra["directory_alphabet"] = {"elements": D_ELEMENTS, "input": D_INPUT, "modes": D_MODES, "logfile": D_LOGCFG,
                                        "cwd": ["neutral", "in-stray"], "name": ["explicit", "derived"],
                                        "path_state": ["exists", "missing", "file"], "files": {k: sorted(v) for k, v in D_FILES.items()}}
-    ctx.extra["directory_cases_total"] = len(cases)
+    ctx.extra["directory_cases_total"] = [len(cases)]
     ctx.extra["directory_cases_run"] = len(mine)
     ctx.extra["directory_subsets_enumerated"] = sorted(
         f"input={inp}+" + ("".join("1" if e in els else "0" for e in D_ELEMENTS)) for inp, els in subsets)
@@ -1283,22 +1310,34 @@ def _run(ctx, base, main_module, config_module):
                                 "extra_per_position": "all" if extras >= len(EXTRA_KINDS) else extras,
                                 "natural": NATURAL_KINDS}
     ctx.extra["module_kinds"] = MODULE_KINDS
-    ctx.extra["shapes_total"] = len(shapes)
+    ctx.extra["grid"] = {"shapes_total": len(shapes), "aux_shapes_total": len(aux_shapes), "workers": ctx.nworkers,
+                         "records": f"1..{max_records}",
+                         "compositions": "every ordered composition of module kinds for M<=2" +
+                                         ("" if quick else f"; {THOROUGH_SAMPLE_PER_SIZE} seeded compositions each for M=3 and M=4"),
+                         "quick_two_record_rule": "R=2: every composition with M<=1 plus "
+                                                  f"{QUICK_PAIRS_FOR_TWO_RECORDS} seeded ordered pairs" if quick else "n/a",
+                         "variants": [list(v) for v in VARIANTS],
+                         "directory_cases_total": ctx.extra["directory_cases_total"].pop()}
+    del ctx.extra["directory_cases_total"]
+    ctx.extra["wall_split_s_first_worker"] = {"directory_part": round(d_wall, 1),
+                                              "write_part": round(time.monotonic() - ctx.t0 - d_wall, 1)}
     ctx.extra["shapes_swept"] = done
     ctx.extra["conversion_positions_hit"] = summary["positions_hit"]
     ctx.extra["conversion_fault_runs"] = summary["fault_runs"]
     ctx.extra["aux_positions_hit"] = summary["aux_positions_hit"]
     ctx.extra["aux_fault_runs"] = summary["aux_fault_runs"]
-    ctx.extra["max_conversion_positions_in_one_run"] = [summary["max_positions"]]
-    ctx.extra["max_aux_positions_in_one_run"] = [summary["aux_positions_max"]]
-    ctx.extra["conversion_events_by_function"] = [f"{name} x{n}" for name, n in sorted(summary["events"].items())] \
-        if ctx.nworkers == 1 else sorted(summary["events"])
-    ctx.extra["positions_per_baseline_histogram"] = [f"N={k}: {v} baselines" for k, v in
-                                                     sorted(summary["positions_per_shape"].items(), key=lambda kv: int(kv[0]))] \
-        if ctx.nworkers == 1 else sorted(f"N={k}" for k in summary["positions_per_shape"])
+    ctx.extra["max_conversion_positions_in_one_run_per_worker"] = [summary["max_positions"]]
+    ctx.extra["max_aux_positions_in_one_run_per_worker"] = [summary["aux_positions_max"]]
+    single = ctx.nworkers == 1
+    ctx.extra["conversion_events_by_function"] = [f"{name} x{n}" if single else name
+                                                  for name, n in sorted(summary["events"].items())]
+    ctx.extra["positions_hit"] = [
+        (f"N={k}: positions 1..{k} each hit with every scheduled kind" + (f" in {v} fault-free baselines" if single else ""))
+        for k, v in sorted(summary["positions_per_shape"].items(), key=lambda kv: int(kv[0]))]
     ctx.extra["exhaustive_means"] = ("every conversion event position 1..N of every scheduled (shape, variant) was hit with "
                                      "every 'always' kind (and the listed extra kinds), and every directory case of the grid "
-                                     "was executed; the shape list itself is complete for M<=2 and a seeded sample for M in 3..4")
+                                     "was executed; the shape list itself is complete for M<=2 and a seeded sample beyond "
+                                     "(see grid); false when the soft time budget stopped the enumeration")
 
 
 def replay(ctx, case):
